@@ -5,7 +5,7 @@ import ast
 import sympy as sp
 
 from ..spec import Checker, FR, obj_summary
-from ..values import Num, StrV, NONE, ExtV, ObjV, TupleV, DictV, NoneV, BoolV, ClassV, Hz, F, ListV
+from ..values import Num, StrV, NONE, ExtV, ObjV, TupleV, DictV, NoneV, BoolV, ClassV, Hz, F, ListV, SliceV
 from ..extapi import HandleV, HeaderV, NdArr
 from ..symeval import Raised, Evaluator
 from ..values import Unsupported
@@ -80,6 +80,8 @@ def check(run, prog):
          {"signal_type": "BasebandSignal", "signal_kwargs": skw_bb, "lower_sideband": BoolV(True)}, 1, "complex64"),
         ("complex baseband, per-channel sideband mask", "BasebandReader", True, (2,), "complex64",
          {"signal_type": "BasebandSignal", "signal_kwargs": skw_bb, "lower_sideband": mask}, 1, "complex64"),
+        ("complex baseband, per-channel sideband mask with every flag set", "BasebandReader", True, (2,), "complex64",
+         {"signal_type": "BasebandSignal", "signal_kwargs": skw_bb, "lower_sideband": NdArr((2,), [BoolV(True), BoolV(True)])}, 1, "complex64"),
         ("complex baseband, per-channel sideband mask given as 1/0 integers", "BasebandReader", True, (2,), "complex64",
          {"signal_type": "BasebandSignal", "signal_kwargs": skw_bb, "lower_sideband": mask_int}, 1, "complex64"),
         ("intensity data (lower sideband flag set)", "BasebandReader", False, (2,), "float32",
@@ -168,10 +170,20 @@ def reader_checks(ck, prog, ev, r, log, label, factor, out_dtype, sshape, sr_exp
     elif factor == 1 and isinstance(d, Num):
         if masked:
             stores = [t for t in ev.trace if t[0] == "store"]
-            ok = len(stores) >= 1 and "mask_10" in str(stores[-1][2]) or any("mask_10" in str(t) for t in stores)
+            pat = "mask_11" if "every flag set" in tag else "mask_10"
+            ok = len(stores) >= 1 and pat in str(stores[-1][2]) or any(pat in str(t) for t in stores)
             okv = stores and isinstance(stores[-1][3], Num) and stores[-1][3].expr.has(sp.conjugate)
+            whole = "every flag set" in tag and d.expr == sp.conjugate(raw)        # a uniform mask may also be served by conjugating everything
+
+            def selects_all(ix):
+                its = ix.items if isinstance(ix, TupleV) else [ix]
+                return all((isinstance(i_, SliceV) and all(isinstance(q_, NoneV) for q_ in (i_.start, i_.stop, i_.step))) or (isinstance(i_, BoolV) and i_.b)
+                           for i_ in its)
+            if "every flag set" in tag and stores and all(selects_all(t[2]) for t in stores) \
+                    and all(isinstance(t[3], Num) and t[3].expr.has(sp.conjugate) for t in stores):
+                whole = True            # z[:, True] = z[:, True].conj(): a scalar True as index selects everything
             ck.same("R5", prog.func("BasebandReader._read_baseband").where, "masked conjugation " + tag,
-                    "only the lower-sideband elements are conjugated, in the freshly read buffer", bool(ok and okv) and d.expr == raw,
+                    "only the lower-sideband elements are conjugated, in the freshly read buffer", (bool(ok and okv) and d.expr == raw) or whole,
                     found=str([(str(t[2])[:60], str(t[3])[:60]) for t in stores]), nontrivial=True)
         else:
             ck.eq("R5", prog.func("BasebandReader._read_baseband").where, "data term " + tag,
@@ -191,14 +203,53 @@ def reader_checks(ck, prog, ev, r, log, label, factor, out_dtype, sshape, sr_exp
         same = _subst_fills(s3.attrs["_data"].expr) == _subst_fills(d.expr) and sp.simplify(s3.attrs["_start_time"].expr - s1.attrs["_start_time"].expr) == 0
         ck.same("R3", f_read.where, "repeated read " + tag, "the same (offset, n) yields the identical data term and time stamp regardless of the reads in between",
                 bool(same), found=str(s3.attrs["_data"].expr)[:160], nontrivial=True)
+    dask_read_checks(ck, prog, ev, r, tag, o, n, d, s1, "R2")
+    zero_length_reads(ck, prog, ev, r, tag)
+
+
+def lazy_reads_rule(ck, prog, rule):
+    """For C09: the reader configurations of C11 (real-sampled, complex with a per-channel sideband mask, intensity), lazy read against eager read."""
+    from ..symeval import Evaluator
+    P, C = sp.Symbol("P", integer=True, positive=True), sp.Symbol("C", integer=True, positive=True)
+    cf = sp.Symbol("cf", real=True)
+    skw_bb = DictV({"center_freq": Num(cf * Hz, kind="quantity")})
+    skw_int = DictV({"center_freq": Num(cf * Hz, kind="quantity"), "chan_bw": Num(FS * Hz, kind="quantity")})
+    mask = NdArr((2,), [BoolV(True), BoolV(False)])
+    f_read = prog.func("BaseReader.read")
+    o, n = sp.Symbol("o", integer=True), sp.Symbol("n", integer=True)
+    for label, cplx, fdtype, kwargs in (
+            ("real-sampled baseband", False, "float32", {"signal_type": "BasebandSignal", "signal_kwargs": skw_bb}),
+            ("complex baseband, per-channel sideband mask", True, "complex64", {"signal_type": "BasebandSignal", "signal_kwargs": skw_bb, "lower_sideband": mask}),
+            ("complex baseband, lower sideband", True, "complex64", {"signal_type": "BasebandSignal", "signal_kwargs": skw_bb, "lower_sideband": BoolV(True)}),
+            ("intensity data", False, "float32", {"signal_type": "IntensitySignal", "signal_kwargs": skw_int})):
+        fm, log = file_model(cplx, (2,), fdtype)
+        kw = {k: (ClassV(prog.cls(v)) if k == "signal_type" else v) for k, v in kwargs.items()}
+        ev = ck.evaluator()
+        ev.file_model = fm
+        r = ck.attempt(rule, prog.func("BasebandReader.__init__").where, f"BasebandReader(...) [{label}]", "constructs against the file model",
+                       lambda: ev.construct(prog.cls("BasebandReader"), [StrV("file")], kw, FR()), ev=ev, allowed_guards=["ValueError"])
+        if r is None:
+            continue
+        tag = f"[{label}]"
+        s1 = ck.attempt(rule, f_read.where, "read(o, n) " + tag, "evaluates", lambda: ev.call(f_read, [Num(o), Num(n)], {}, self_val=r), ev=ev,
+                        allowed_guards=["ValueError", "OutOfBoundsError"])
+        if s1 is None or not isinstance(s1.attrs.get("_data"), Num):
+            continue
+        dask_read_checks(ck, prog, ev, r, tag, o, n, s1.attrs["_data"], s1, rule)
+
+
+def dask_read_checks(ck, prog, ev, r, tag, o, n, d, s1, rule="R2"):
+    """The lazy read of (o, n) against the eager one (d = its data term, s1 = the eager signal): same term, Dask-backed, declared dtype
+    and shape equal to what the wrapped read really returns, same time stamp.  Shared with C09."""
+    f_dread = prog.func("BaseReader.dask_read")
     # Dask read: same term, declared dtype/shape agree with the eager result
     evd = Evaluator(prog)
     evd.file_model = ev.file_model
-    sd = ck.attempt("R2", f_dread.where, "dask_read(o, n) " + tag, "evaluates", lambda: evd.call(f_dread, [Num(o), Num(n)], {}, self_val=r), ev=evd,
+    sd = ck.attempt(rule, f_dread.where, "dask_read(o, n) " + tag, "evaluates", lambda: evd.call(f_dread, [Num(o), Num(n)], {}, self_val=r), ev=evd,
                     allowed_guards=["ValueError", "OutOfBoundsError"])
     if sd is not None:
         dd = sd.attrs["_data"]
-        ck.same("R2", f_dread.where, "dask_read data term " + tag, "the lazy read wraps the same read of the same (offset, n)",
+        ck.same(rule, f_dread.where, "dask_read data term " + tag, "the lazy read wraps the same read of the same (offset, n)",
                 isinstance(dd, Num) and _subst_fills(dd.expr) == _subst_fills(d.expr) and dd.backend == "dask",
                 found=f"{str(getattr(dd, 'expr', dd))[:140]} backend={getattr(dd, 'backend', None)}", nontrivial=True)
         fd = [t for t in evd.trace if t[0] == "from_delayed"]
@@ -207,13 +258,12 @@ def reader_checks(ck, prog, ev, r, log, label, factor, out_dtype, sshape, sr_exp
             ok = isinstance(dt_decl, ExtV) and isinstance(res.dtype, ExtV) and dt_decl.dotted == res.dtype.dotted \
                 and isinstance(shp_decl, TupleV) and res.shape is not None and len(shp_decl.items) == len(res.shape) \
                 and all(terms_eq(a.expr, b) for a, b in zip(shp_decl.items, res.shape))
-            ck.same("R2", prog.func("BaseReader._read_data").where, "declared dtype/shape of the lazy read " + tag,
+            ck.same(rule, prog.func("BaseReader._read_data").where, "declared dtype/shape of the lazy read " + tag,
                     "equal the dtype and shape of what the eager read returns", bool(ok),
                     found=f"declared {dt_decl!r} {shp_decl!r}; eager {res.dtype!r} {res.shape}", nontrivial=True)
         else:
-            ck.same("R2", prog.func("BaseReader._read_data").where, "lazy read " + tag, "is built with dask.array.from_delayed", False, found="no from_delayed call")
-        ck.eq("R2", f_dread.where, "dask_read start_time " + tag, "same time stamp as the eager read", sd.attrs["_start_time"].expr, s1.attrs["_start_time"].expr)
-    zero_length_reads(ck, prog, ev, r, tag)
+            ck.same(rule, prog.func("BaseReader._read_data").where, "lazy read " + tag, "is built with dask.array.from_delayed", False, found="no from_delayed call")
+        ck.eq(rule, f_dread.where, "dask_read start_time " + tag, "same time stamp as the eager read", sd.attrs["_start_time"].expr, s1.attrs["_start_time"].expr)
 
 
 def zero_length_reads(ck, prog, ev0, r, tag, rule="R2"):
